@@ -4,3 +4,4 @@ import CC.Thm.C05
 #print axioms CC.Thm.C05.default_is_config_ubi
 #print axioms CC.Thm.C05.output_loop_is_output
 #print axioms CC.Thm.C05.source_kernels_match
+#print axioms CC.Thm.C05.source_glue_match
